@@ -1,26 +1,30 @@
 import Proofs.DasStatement
 import Proofs.DasForeign
 import Proofs.DasFlat
+import Proofs.DasTotal
+import Proofs.DasIds
+import Proofs.DasCanon
 /-!
   C08 — attributes survive the DAS.  Model: `PydapModel/DasText.lean` (follows parsers/das.py and
-  responses/das.py *after* the two fixes: `float()` under Float32/Float64; size-0 values skipped everywhere).
-  `PydapModel/DasForeign.lean` is the specification of a foreign-layout printer (not pydap code).
+  responses/das.py *after* the three fixes: `float()` under Float32/Float64; size-0 values skipped everywhere;
+  `add_attributes` attaches only containers).  `PydapModel/DasForeign.lean` is the specification of a foreign-layout
+  printer (not pydap code).
 
-  Proved for ALL inputs (unbounded; induction on characters, value lists, and mutual structural induction over
-  the nested `Item` / `FItem` / `Var` trees):
-    * whole text, on characters: `C08_parse_print` (pydap's own DAS of any dataset tree), `C08_foreign_parse`
-      (any tree of nodes in pydap's layout), `C08_foreign_layout` (any tree of nodes in a foreign layout:
-      keyword / type case, white space chosen per node, several attributes per line);
-    * whole dataset: `C08_placement_tree` (add_attributes over the whole parsed dict), `C08_roundtrip_partial`
-      (serve, parse, attach) with `C08_roundtrip_refuted` / `C08_roundtrip_collision_refuted` for the unguarded
-      statements, `C08_foreign` (foreign-layout text with nested containers, parsed and attached);
-    * value / attribute-line level and the single decisions of `add_attributes`
-      (`C08_value_roundtrip`, `C08_roundtrip_line_*`, `C08_foreign_line`, `C08_placement_flat/_nested/_keep/_none/_global`).
-    * flat style over a whole tree: `C08_foreign_flat` (parsed dict with containers keyed by dotted ids) and
-      `C08_foreign_flat_text` (from the foreign-layout text).  Its guard "ids pairwise distinct" is a hypothesis; that it
-      follows from distinct, dot-free sibling names is not proved here.
-  Example level only (kernel-evaluated `rfl` examples below + the differential run): texts mixing flat and nested
-  containers for the same subtree, the keep-around rule over a whole tree, white space before `,`/`;`, error outcomes.
+  Proved for ALL inputs (unbounded; induction on characters, value lists, and mutual structural induction over the
+  nested `Item` / `FItem` / `Var` trees):
+    * whole text, on characters: `C08_parse_print`, `C08_foreign_parse`, `C08_foreign_layout`;
+    * whole dataset: `C08_placement_tree`, `C08_roundtrip_partial` (+ `C08_roundtrip_refuted` /
+      `C08_roundtrip_collision_refuted` for the unguarded statements), `C08_das_text_spelling` + `C08_roundtrip_canon`
+      (short and empty lists included, modulo the normal form the DAS format forces), `C08_foreign`;
+    * flat style over a whole tree: `C08_foreign_flat`, `C08_foreign_flat_text`, and — the id guard discharged from
+      distinct dot-free sibling names — `C08_flat_ids_distinct`, `C08_foreign_flat_names`;
+    * `add_attributes` as an operation on the caller's dict: `C08_attach_total` (never raises), `C08_attach_consumes`,
+      `C08_memo_second_opening`, `C08_memo_refuted`, and the client over histories of openings: `C08_history_roundtrip`;
+    * value / attribute-line level and the single decisions of `add_attributes` (`C08_value_roundtrip`,
+      `C08_roundtrip_line_*`, `C08_foreign_line`, `C08_placement_flat/_nested/_both/_keep/_none/_global`).
+  Not ∀-theorems (see design_notes/C08.md for the precise reasons): whole-tree texts mixing flat and nested containers
+  for one subtree (the single visit is `C08_placement_both`), white space before `,`/`;` after a number token (its value
+  is Python's `literal_eval`), parser error outcomes.
 -/
 namespace Pydap.C08
 open Pydap.Das
@@ -83,7 +87,7 @@ theorem C08_foreign_line (ty k : Text) (xs : List Scalar) (rest : Text) (lvl : N
     is popped and becomes the variable's attributes. -/
 theorem C08_placement_flat (attrs : Dict) (n : Text) (e : Dict) (h : dget attrs n = some (.dict e)) :
     attachStep attrs [n] [] = .ok (derase attrs n, dupdate [] e) := by
-  simp [attachStep, nestedStep, dotted, h, pyUpdate, reduceGet, dget_derase_self]
+  simp [attachStep, nestedStep, dotted, h, reduceGet, dget_derase_self]
 
 /-- **placement, nested id.** With no flat entry, the container found by walking the id path through nested
     containers is popped from its parent and becomes the variable's attributes. -/
@@ -92,17 +96,42 @@ theorem C08_placement_nested (attrs nested e : Dict) (p : List Text) (k : Text)
     (h1 : reduceGet (.dict attrs) p.dropLast = .ok (.dict nested))
     (h2 : dget nested k = some (.dict e)) :
     attachStep attrs p [] = .ok (setNested attrs p.dropLast (derase nested k), dupdate [] e) := by
-  simp [attachStep, nestedStep, h0, hk, h1, h2, pyUpdate]
+  simp [attachStep, nestedStep, h0, hk, h1, h2]
 
-/-- **placement, keep-around rule.** A nested entry that is not a container (here: a number) stays with the
-    parent (re-appended) and the variable gets nothing. -/
-theorem C08_placement_keep (attrs nested : Dict) (p : List Text) (k tok : Text) (f : Bool)
-    (h0 : dget attrs (dotted p) = none) (hk : p.getLast? = some k)
+/-- **placement, flat AND nested container for the same variable** (a text mixing both styles for one subtree, e.g.
+    `s { a { … } }` together with `s.a { … }`): both containers are popped and the variable receives the flat one
+    first, then the nested one on top (`dict.update` twice: on a common name the nested container wins). -/
+theorem C08_placement_both (attrs nested e1 e2 : Dict) (p : List Text) (k : Text) (init : Dict)
+    (h0 : dget attrs (dotted p) = some (.dict e1)) (hk : p.getLast? = some k)
+    (h1 : reduceGet (.dict (derase attrs (dotted p))) p.dropLast = .ok (.dict nested))
+    (h2 : dget nested k = some (.dict e2)) :
+    attachStep attrs p init
+      = .ok (setNested (derase attrs (dotted p)) p.dropLast (derase nested k), dupdate (dupdate init e1) e2) := by
+  simp [attachStep, nestedStep, h0, hk, h1, h2]
+
+/-- **placement, keep-around rule (repaired code).** An entry under the variable's name that is NOT a container — a
+    string (the empty one and 2-character ones included), a number, a list — is an attribute of the parent: it stays
+    exactly where it is and the variable gets nothing.  (Before the repair it was popped and handed to `dict.update`,
+    which dropped `""`, re-read `["ab","cd"]` as pairs and re-appended the rest.) -/
+theorem C08_placement_keep (attrs nested : Dict) (p : List Text) (k : Text) (v : AVal) (init : Dict)
+    (h0 : ∀ e, dget attrs (dotted p) ≠ some (.dict e)) (hk : p.getLast? = some k)
     (h1 : reduceGet (.dict attrs) p.dropLast = .ok (.dict nested))
-    (h2 : dget nested k = some (.sc (.num tok f))) :
-    attachStep attrs p [] =
-      .ok (setNested attrs p.dropLast (derase nested k ++ [(k, .sc (.num tok f))]), []) := by
-  simp [attachStep, nestedStep, h0, hk, h1, h2, pyUpdate]
+    (h2 : dget nested k = some v) (hv : ∀ e, v ≠ .dict e) :
+    attachStep attrs p init = .ok (attrs, init) := by
+  have hn : nestedStep attrs p init = .ok (attrs, init) := by
+    cases v with
+    | dict e => exact absurd rfl (hv e)
+    | sc y => simp [nestedStep, hk, h1, h2]
+    | list y => simp [nestedStep, hk, h1, h2]
+  unfold attachStep
+  split
+  · next e he => exact absurd he (h0 e)
+  · exact hn
+
+/-- **the repaired `add_attributes` never raises**: for every dataset tree and every parsed dict (well-formed or not:
+    plain attributes named like variables or like the dataset, id paths running through strings, numbers, lists). -/
+theorem C08_attach_total (name : Text) (cs : List Var) (A : Dict) : ∃ r, addAttributes name cs A = .ok r :=
+  addAttributes_total name cs A
 
 /-- **placement, no entry.** A variable named nowhere in the DAS leaves the parsed attributes untouched. -/
 theorem C08_placement_none (attrs : Dict) (p : List Text) (init : Dict)
@@ -195,6 +224,111 @@ theorem C08_foreign_flat_text (name : Text) (cs : List Var) (kw w0 w1 : Text) (i
       = some (.ok (flatExpected cs (denoteItems [] (eraseItems its)))) := by
   rw [fparse kw w0 w1 its trail hkw h0 h1 hok]
   simp [Except.toOption, flat_attach name cs _ hG hself]
+
+/-- **the DAS text cannot tell `[x]` from `x`, nor carry `[]`**: a dataset and its normal form (`canonDs`: every
+    one-element list replaced by its element, every empty list dropped, at any depth) are served as the SAME text.
+    This is inherent to the DAS format (an attribute is a type, a name and one or more values); no parser can return
+    both spellings, so finding C08.short_list cannot be repaired on either side. -/
+theorem C08_das_text_spelling (ds : Dataset) : dasText (canonDs ds) = dasText ds :=
+  dasText_canon ds
+
+/-- **whole-dataset round trip, short lists included, modulo that spelling**: for every dataset of the DAS-safe domain
+    — one-element and empty lists allowed anywhere — whose NORMAL FORM satisfies the collision guards, the client holds
+    exactly the normal form: every variable its own attributes with `[x]` read back as `x` and `[]` absent, everything
+    else (names, nesting, tokens, Python types, lists of two or more) unchanged.  On datasets without short lists
+    this is `C08_roundtrip_partial`. -/
+theorem C08_roundtrip_canon (ds : Dataset) (hok : DsOk ds) (hg : Guard (canonDs ds)) :
+    roundTrip ds = some (.ok (expected (canonDs ds))) := by
+  rw [← roundTrip_canon]
+  unfold roundTrip
+  rw [parse_print _ (dsOk_canon ds hok), denote_ds _ hg.1 hg.2.1 hg.2.2]
+  simp only [attach_tree _ hg.1, expected]
+
+/-! ### the client pipeline over histories of openings; `add_attributes` consumes its argument -/
+
+/-- **`add_attributes` consumes the parsed DAS**: after attaching the parsed DAS of a served dataset, the caller's dict
+    holds the plain global attributes only — the NC_GLOBAL/DODS_EXTRA containers and every variable's container have
+    been popped out of it.  (This is why `DAPHandler.attach_das` must hand a freshly parsed dict to every call.) -/
+theorem C08_attach_consumes (ds : Dataset) (hg : DsG ds) :
+    addAttributesRem ds.name ds.children (dsDict ds)
+      = .ok (expected ds, (sortKeys ds.attrs).filter notGlobal) :=
+  attach_tree_rem ds hg
+
+/-- **what a memoised `parse_das` would do**: if the dict left over by a first opening is attached again (the same
+    object served from a cache keyed by the DAS text), EVERY variable ends up with no attributes at all. -/
+theorem C08_memo_second_opening (ds : Dataset) (hok : DsOk ds) (hg : Guard ds) :
+    ∃ g, memoSecondOpening ds.name ds.children (dasText ds)
+      = some (.ok ⟨g, (walkVars [] ds.children).reverse.map fun p => (p, [])⟩) := by
+  unfold memoSecondOpening
+  rw [parse_print ds hok, denote_ds ds hg.1 hg.2.1 hg.2.2]
+  simp only [attach_tree_rem ds hg.1]
+  have hR : ∀ v ∈ ds.children, v.name ∉ keys ((sortKeys ds.attrs).filter notGlobal) := by
+    intro v hv hk
+    have h1 := mem_keys_filter_sort _ _ _ hk
+    have := (List.nodup_append.mp hg.1.nodup).2.2
+    exact this _ h1 _ (List.mem_map_of_mem hv) rfl
+  have hdot : NoDot (keys ((sortKeys ds.attrs).filter notGlobal)) := by
+    intro k hk
+    exact hg.1.nodot k (by simp [mem_keys_filter_sort _ _ _ hk])
+  have hff : ((sortKeys ds.attrs).filter notGlobal).filter (fun kv => !isGlobalDict kv)
+      = (sortKeys ds.attrs).filter notGlobal := by
+    unfold notGlobal; simp [List.filter_filter]
+  obtain ⟨⟨A2, g1⟩, h2⟩ := attachStep_ok ((sortKeys ds.attrs).filter notGlobal) [ds.name]
+    (mergeGlobals ((sortKeys ds.attrs).filter notGlobal) [])
+  refine ⟨dupdate g1 A2, ?_⟩
+  unfold addAttributes
+  simp only [hff, visit_miss ds.children _ hR hdot, h2]
+
+/-- **the client must parse per opening**: a client that reuses the parsed dict of an earlier opening does NOT hold what
+    `DAPHandler.attach_das` (fresh `parse_das` per call) holds — refuted on a dataset of the guarded domain. -/
+theorem C08_memo_refuted :
+    ¬ (∀ ds : Dataset, DsOk ds → Guard ds →
+        memoSecondOpening ds.name ds.children (dasText ds) = clientAttach ds.name ds.children (dasText ds)) := by
+  intro h
+  have h1 := h exSmall exSmall_ok exSmall_guard
+  obtain ⟨g, h2⟩ := C08_memo_second_opening exSmall exSmall_ok exSmall_guard
+  have h3 : clientAttach exSmall.name exSmall.children (dasText exSmall) = some (.ok (expected exSmall)) := by
+    unfold clientAttach
+    rw [parse_print exSmall exSmall_ok, denote_ds exSmall exSmall_guard.1 exSmall_guard.2.1 exSmall_guard.2.2]
+    simp only [attach_tree exSmall exSmall_guard.1, expected]
+  rw [h2, h3] at h1
+  injection h1 with h1
+  injection h1 with h1
+  have h4 := congrArg (fun r : Attached => r.vars.map (fun pd : List Text × Dict => pd.2.length)) h1
+  simp only at h4
+  revert h4
+  decide
+
+/-- **the client pipeline is a function of the DAS text alone, over any history**: whatever datasets were opened
+    before, in whatever order and however often, sharing DAS text or not, the i-th opening holds `clientAttach` of its
+    own (name, tree, text) — and for served datasets of the guarded domain exactly `expected ds`. -/
+theorem C08_history_roundtrip (dss : List Dataset) (h : ∀ ds ∈ dss, DsOk ds ∧ Guard ds) :
+    clientHistory (dss.map fun ds => (ds.name, ds.children, dasText ds))
+      = dss.map fun ds => some (.ok (expected ds)) := by
+  unfold clientHistory
+  rw [List.map_map]
+  apply List.map_congr_left
+  intro ds hds
+  obtain ⟨hok, hg⟩ := h ds hds
+  simp only [Function.comp, clientAttach]
+  rw [parse_print ds hok, denote_ds ds hg.1 hg.2.1 hg.2.2]
+  simp only [attach_tree ds hg.1, expected]
+
+/-- **ids are pairwise distinct** — the first guard of the flat-style theorems is not an assumption about the walk: it
+    follows from what Python's containers enforce (sibling names distinct) plus dot-free names (`".".join` is injective
+    on such paths, `dotted_inj`; the walk visits every path once, `walkVars_nodup`). -/
+theorem C08_flat_ids_distinct (cs : List Var) (h : VarsNames cs) (hnd : (cs.map Var.name).Nodup) :
+    ((visitIds cs).map dotted).Nodup :=
+  ids_nodup cs h hnd
+
+/-- **flat style, whole tree, from names**: `C08_foreign_flat` with the id guard discharged. -/
+theorem C08_foreign_flat_names (name : Text) (cs : List Var) (A : Dict)
+    (hnames : VarsNames cs) (hnd : (cs.map Var.name).Nodup)
+    (h1 : ∀ p ∈ visitIds cs, NoneOrDict (A.filter notGlobal) (dotted p) fun S => (keys S).Nodup)
+    (h2 : ∀ q0 r1 rs, (q0 :: r1 :: rs) ∈ visitIds cs → NoneOrDict (A.filter notGlobal) q0 fun S => r1 ∉ keys S)
+    (hself : name ∉ keys (dropKeys (A.filter notGlobal) ((visitIds cs).map dotted))) :
+    addAttributes name cs A = .ok (flatExpected cs A) :=
+  flat_attach name cs A ⟨ids_nodup cs hnames hnd, h1, h2⟩ hself
 
 /-- **unguarded statement refuted (1)**: over the DAS-safe domain alone the round trip is false — a
     one-element list comes back as a scalar (finding C08.short_list). -/
@@ -309,6 +443,45 @@ example : reduceGet (.dict [("s".toList, .dict [("a".toList, .dict [])])]) ["s".
 example : reduceGet (.dict [("s".toList, .dict [])]) ["t".toList] = .error .keyError := rfl
 example : dget (([("title".toList, AVal.sc (.str "t".toList)), ("NC_GLOBAL".toList, .dict [])] : Dict).filter
     fun kv => !isGlobalDict kv) "d".toList = none := rfl
+
+-- repaired add_attributes: a parsed dict in which the name of the Structure `s` is a plain number, the id path of
+-- `s.a` runs through it (`7["a"]`: TypeError before the repair) and the dataset's own name is a string — no error,
+-- everything stays a global attribute
+example : addAttributes "d".toList exTmpl [("s".toList, .sc (.num "7".toList false)), ("d".toList, .sc (.str "ab".toList))]
+    = .ok ⟨[("s".toList, .sc (.num "7".toList false)), ("d".toList, .sc (.str "ab".toList))],
+           [(["b".toList], []), (["s".toList, "a".toList], []), (["s".toList], [])]⟩ := rfl
+-- keep-around: the hypotheses of `C08_placement_keep` on a Grid `g` with the plain attribute `x` named like its member
+example : (∀ e, dget [("g".toList, AVal.dict [("x".toList, .sc (.str []))])] (dotted ["g".toList, "x".toList]) ≠ some (.dict e))
+    ∧ ["g".toList, "x".toList].getLast? = some "x".toList
+    ∧ reduceGet (.dict [("g".toList, .dict [("x".toList, .sc (.str []))])]) ["g".toList, "x".toList].dropLast
+        = .ok (.dict [("x".toList, .sc (.str []))])
+    ∧ dget [("x".toList, AVal.sc (.str []))] "x".toList = some (.sc (.str [])) :=
+  ⟨(by intro e h; cases h), rfl, rfl, rfl⟩
+-- ids: the tree `s {a}, b` has dot-free, pairwise distinct sibling names
+example : VarsNames exTmpl ∧ (exTmpl.map Var.name).Nodup := by
+  refine ⟨⟨⟨by decide, by decide, ⟨by decide, by decide, trivial⟩, trivial⟩, ⟨by decide, by decide, trivial⟩, trivial⟩, by decide⟩
+-- mixed flat + nested for `s.a`: both containers exist
+example : attachStep [("s".toList, .dict [("a".toList, .dict [("x".toList, .sc (.num "1".toList false))])]),
+                      ("s.a".toList, .dict [("y".toList, .sc (.num "2".toList false))])] ["s".toList, "a".toList] []
+    = .ok ([("s".toList, .dict [])], [("y".toList, .sc (.num "2".toList false)), ("x".toList, .sc (.num "1".toList false))]) := rfl
+-- short lists: the witness of C08.short_list is in the domain of `C08_roundtrip_canon`; its normal form holds `x = 5`
+example : DsOk wShort ∧ Guard (canonDs wShort) := by
+  refine ⟨wShort_ok, ⟨?_, by decide, by unfold NoDot; decide, (by intro e h; cases h), by decide⟩, trivial, ?_⟩
+  · exact ⟨⟨by decide, rfl⟩, trivial⟩
+  · exact ⟨⟨trivial, trivial⟩, trivial⟩
+example : expected (canonDs wShort) = ⟨[], [(["a".toList], [("x".toList, .sc (.num "5".toList false))])]⟩ := rfl
+example : canonAttrs [("e".toList, .list []), ("x".toList, .list [.num "5".toList false]),
+                      ("l".toList, .list [.num "1".toList false, .num "2".toList false])]
+    = [("x".toList, .sc (.num "5".toList false)), ("l".toList, .list [.num "1".toList false, .num "2".toList false])] := rfl
+-- keep-around rule over a whole tree: a Grid attribute `x = ""` named like the member `x` and a plain global named like
+-- the dataset are inside the guards of `C08_roundtrip_partial` (before the repair: lost / TypeError)
+example : Guard wKeep := wKeep_guard
+-- histories: a history that opens the same dataset three times satisfies the hypothesis of `C08_history_roundtrip`
+example : ∀ ds ∈ [exSmall, exSmall, exSmall], DsOk ds ∧ Guard ds := by
+  intro ds h; simp at h; subst h; exact ⟨exSmall_ok, exSmall_guard⟩
+-- consumption: what a first opening of `exSmall` leaves in the parsed dict is the plain global attribute only
+example : addAttributesRem exSmall.name exSmall.children (dsDict exSmall)
+    = .ok (expected exSmall, [("title".toList, .sc (.str "t; {x}".toList))]) := C08_attach_consumes exSmall exSmall_guard.1
 
 /-! ### whole texts and whole datasets (kernel evaluation of the model on concrete inputs) -/
 
